@@ -323,9 +323,93 @@ def passthrough(sx, role, rounds):
     return [len(Recorder.calls), role]
 
 
+# ----------------------------------------------------------------------------
+# timing on the virtual clock: on an idle link each side hands its next PDU
+# to the MAC within the link timeout it announced itself
+# ----------------------------------------------------------------------------
+from symx.envpatch import CLOCK
+
+
+class _Yield(BaseException):
+    """leaves the run loop where it would wait for a frame beyond the script"""
+
+
+def _scripted_mac(role, peer_gb, log, nframes):
+    """a real Initiator/Target object whose activate() hands over the peer's
+    general bytes and whose exchange() is the peer: it answers SYMM at once
+    and records the virtual time of every call and return"""
+    cls = nfc.dep.Initiator if role == "initiator" else nfc.dep.Target
+    mac = cls.__new__(cls)
+
+    def activate(*args, **options):
+        log['gb'] = options['gbi' if role == "initiator" else 'gbt']
+        mac.rwt = 4096 / 13.56E6 * 2 ** 8
+        return peer_gb
+
+    def exchange(send_data, timeout):
+        log['calls'].append((CLOCK.t, send_data))
+        if len(log['calls']) > nframes:
+            raise _Yield()
+        log['returns'].append(CLOCK.t)
+        return bytearray(b"\x00\x00")
+    mac.activate, mac.exchange = activate, exchange
+    mac.deactivate = lambda *a, **k: None
+    return mac
+
+
+def idle_timing(sx, role, own_rng, peer_rng, nframes=14):
+    """real llc.activate() (PAX built and parsed by the real code on both
+    devices), then the real run_as_initiator / run_as_target loop on an idle
+    link for nframes exchanges against a peer that answers SYMM at once"""
+    llc.sec.OpenSSL = None
+    own = sx.int("lto.own", *own_rng)
+    peer = sx.int("lto.peer", *peer_rng)
+    other = "target" if role == "initiator" else "initiator"
+    # the peer device announces its parameters through its own real activate()
+    plog = dict(calls=[], returns=[], gb=None)
+    peer_llc = llc.LogicalLinkController(lto=peer, sec=False)
+    peer_llc.activate(mac=_scripted_mac(other, None, plog, 0))
+    log = dict(calls=[], returns=[], gb=None)
+    ctl = llc.LogicalLinkController(lto=own, sec=False)
+    if not ctl.activate(mac=_scripted_mac(role, plog['gb'], log, nframes)):
+        sx.check(False, "idle:activation-failed:" + role)
+    announced = nfc.llcp.pdu.decode(b"\x00\x40" + bytes(log['gb'][3:])).lto
+    sx.check_all([
+        (announced == (own // 10) * 10, "idle:announced-lto-not-the-option:" + role),
+        (ctl.cfg['recv-lto'] == (peer // 10) * 10, "idle:recv-lto-not-peer-lto:" + role),
+    ])
+    CLOCK.reset()
+    try:
+        ctl.run(terminate=lambda: False)
+        sx.check(False, "idle:run-loop-ended:" + role)
+    except _Yield:
+        pass
+    calls, rets = log['calls'], log['returns']
+    sx.check(len(calls) == nframes + 1 and len(rets) == nframes,
+             "idle:link-did-not-stay-up:" + role)
+    low = ":lto-below-100" if own_rng[1] < 100 else ""
+    worst = 0.0
+    for k in range(1, len(calls)):
+        t_send, data = calls[k]
+        if data is None:
+            sx.check(False, "idle:no-pdu-sent:" + role)
+        waited = t_send - rets[k - 1]
+        worst = max(worst, waited)
+        phase = "idle" if k >= 10 else "start"   # 10 SYMM received so far
+        sx.check(waited <= announced * 1E-3,
+                 "llcp:%s-%s-symm-later-than-own-lto%s" % (role, phase, low))
+    sx.reach("idle:" + role)
+    return [role, len(calls), round(worst, 4)]
+
+
 def partitions(tier):
     quick = tier == "quick"
     parts = []
+    for role in ("initiator", "target"):
+        parts.append(dict(name="idle:%s" % role, fn="idle_timing", params=dict(
+            role=role, own_rng=[100, 2550], peer_rng=[10, 2550])))
+        parts.append(dict(name="idle:%s:low" % role, fn="idle_timing", params=dict(
+            role=role, own_rng=[10, 99], peer_rng=[10, 2550])))
     for role in (None, "initiator", "target"):
         for rounds in ((1, 3) if quick else (1, 2, 3, 5)):
             parts.append(dict(name="passthrough:%s:%d" % (role, rounds), fn="passthrough",
@@ -374,7 +458,8 @@ def partitions(tier):
     return parts
 
 
-MUST_REACH = ["activated:106A", "activated:212F", "psl", "exchanged", "did", "nad", "passthrough", "llcp_traffic"]
+MUST_REACH = ["activated:106A", "activated:212F", "psl", "exchanged", "did", "nad", "passthrough", "llcp_traffic",
+              "idle:initiator", "idle:target"]
 BOUNDS = {
     "quick": "two real LogicalLinkController.activate() stacks (Initiator and "
     "Target) over the stub air, passive activation at 106A and at 212F; "
@@ -387,7 +472,14 @@ BOUNDS = {
     "spread over the partitions), service lists {none, 4, 4+16, 2+14+15, "
     "4+11}, agf, acm asked for but unsupported by the device, DID=1, NAD=7; "
     "the LLCP grid uses rwt 6..10; after activation one chained payload of "
-    "miu+1 bytes in each direction and release",
+    "miu+1 bytes in each direction and release; timing on the virtual clock: "
+    "own LTO 10..2550 ms x peer LTO 10..2550 ms (both symbolic), each role: "
+    "real llc.activate() on both devices (PAX built and parsed by the real "
+    "code), then the real run_as_initiator / run_as_target loop for 14 "
+    "exchanges on an idle link against a peer answering SYMM at once; for "
+    "every PDU handed to the MAC the virtual time since the previous PDU "
+    "arrived must not exceed the LTO the device announced in its own general "
+    "bytes (own LTO 10..99 in partitions of their own)",
     "thorough": "as quick with rwt 0..15 everywhere, DID+NAD together, and "
     "two partitions with every range uncut (brs, lri, lrt, rwt, both MIU, "
     "both LTO fully symbolic in one run)",
@@ -406,6 +498,8 @@ OUTSIDE = [
     "10..2550; LTO is compared after rounding down to the 10 ms unit of the "
     "LTO parameter",
     "lost or corrupted activation frames (C04 covers the data exchange)",
+    "timing while PDUs are queued or connections are open, time spent below "
+    "the MAC (NFC-DEP RWT, retransmissions), more than 14 idle exchanges",
 ]
 ASSUMPTIONS = [
     "env.air IniClf.sense / ListenStub (TgtClf.listen) as in C04: the target "
@@ -420,6 +514,11 @@ ASSUMPTIONS = [
     "does) before activation; the remote WKS must equal 1 | 2 | their bits",
     "os.urandom inside nfc.dep returns a fixed pattern; nfc.llcp.sec.OpenSSL "
     "is set to None (no data protection)",
+    "idle timing: the MAC is a real Initiator/Target object whose activate() "
+    "hands over the general bytes produced by the peer controller's real "
+    "activate() and whose exchange() answers SYMM without delay and records "
+    "symx.envpatch.CLOCK (time() +100 us per call, sleep(d) +d) at call and "
+    "return; the loop is left by a BaseException at the 15th exchange",
     "the payloads of the final exchange are a fixed pattern with symbolic "
     "bytes at the start and around the chaining boundary",
 ]
